@@ -235,6 +235,30 @@ func zjoin(a, b *zstate) *zstate {
 			}
 		}
 	}
+	// a boolean known false in one state only: where it is true we came through
+	// the other state, so the constraints of that state the join loses survive
+	// as facts guarded by the boolean (bounds against zero only, to stay small)
+	keepLost := func(from, other *zstate) {
+		for g, v := range other.bools {
+			if v {
+				continue
+			}
+			if fv, ok := from.bools[g]; ok && !fv {
+				continue
+			}
+			for k, c := range from.b {
+				if k[0] != zZero && k[1] != zZero {
+					continue
+				}
+				cc := zcons{k[0], k[1], c}
+				if !n.holds(cc) {
+					n.guarded[g] = appendCons(n.guarded[g], cc)
+				}
+			}
+		}
+	}
+	keepLost(a, b)
+	keepLost(b, a)
 	return n
 }
 
@@ -341,12 +365,30 @@ func le(a, b ZArg, c int64) ZC { return ZC{a, b, c} }
 // ---------------------------------------------------------------------------
 // engine
 
+type binopKey struct {
+	op   token.Token
+	x, y string
+}
+
+func mkBinopKey(bo *ssa.BinOp) binopKey {
+	vk := func(v ssa.Value) string {
+		if c, ok := v.(*ssa.Const); ok {
+			return "const:" + c.String()
+		}
+		return fmt.Sprintf("%p", v)
+	}
+	return binopKey{bo.Op, vk(bo.X), vk(bo.Y)}
+}
+
 type ZObl struct {
 	Fn     *ssa.Function
 	In     ssa.Instruction
 	What   string
 	OK     bool
 	Detail string
+	// for index/slice obligations: the non-negativity part alone (index >= 0, 0 <= low, 0 <= high)
+	IsBound bool
+	LowerOK bool
 }
 
 type zoneEngine struct {
@@ -357,6 +399,17 @@ type zoneEngine struct {
 	obls      []ZObl
 	// field invariants: type.field -> minimal length (len(field) >= k) assumed at loads, checked at stores
 	fieldMinLen map[string]int64
+	// state getters (c01_bounds.go): call -> earlier call known to return the same value
+	useGetters bool
+	getterEq   map[*ssa.Call]*ssa.Call
+	loadLB     map[*ssa.UnOp]int64
+	sameBinOps map[binopKey][]*ssa.BinOp
+	// integer field invariants: type.field >= k, assumed at loads, checked at every store
+	fieldLB map[string]int64
+	// fieldLBCheck: like fieldLB but obligation only (no assumption at loads): class invariants
+	fieldLBCheck map[string]int64
+	// entryNonneg: integer parameters known >= 0 on entry (callbacks of sort.Slice, sort.Interface methods)
+	entryNonneg func(fn *ssa.Function) []*ssa.Parameter
 }
 
 func (z *zoneEngine) slcanon(v ssa.Value) ssa.Value {
@@ -416,6 +469,10 @@ func (z *zoneEngine) lin(s *zstate, v ssa.Value) (zterm, int64) {
 	for i := 0; i < 16; i++ {
 		if e, ok := s.eq[v]; ok && e != v {
 			v = e
+			continue
+		}
+		if c, ok := z.canon[v]; ok && c != v {
+			v = c
 			continue
 		}
 		switch x := v.(type) {
@@ -480,9 +537,31 @@ func (z *zoneEngine) refine(s *zstate, cond ssa.Value, val bool) {
 		return
 	}
 	s.bools[cond] = val
+	// syntactically identical comparisons (same operator and operands, e.g. the
+	// `pos == 0` of two switch cases) have the same value
+	if bo, ok := cond.(*ssa.BinOp); ok {
+		for _, other := range z.sameBinOps[mkBinopKey(bo)] {
+			if other != bo {
+				if kv, ok := s.bools[other]; ok && kv != val {
+					s.bottom = true
+					return
+				}
+				s.bools[other] = val
+			}
+		}
+	}
 	if val {
 		for _, c := range s.guarded[cond] {
 			s.addCons(c)
+		}
+		if bo, ok := cond.(*ssa.BinOp); ok {
+			for _, other := range z.sameBinOps[mkBinopKey(bo)] {
+				if other != bo {
+					for _, c := range s.guarded[other] {
+						s.addCons(c)
+					}
+				}
+			}
 		}
 	}
 	switch x := cond.(type) {
@@ -646,7 +725,7 @@ func (z *zoneEngine) checkZC(s *zstate, call *ssa.Call, c ZC) bool {
 }
 
 func (z *zoneEngine) obl(in ssa.Instruction, what string, ok bool, detail string) {
-	z.obls = append(z.obls, ZObl{z.fn, in, what, ok, detail})
+	z.obls = append(z.obls, ZObl{Fn: z.fn, In: in, What: what, OK: ok, Detail: detail})
 }
 
 func (z *zoneEngine) describe(s *zstate, t zterm, o int64) string {
@@ -679,6 +758,8 @@ func (z *zoneEngine) transfer(s *zstate, in ssa.Instruction, record bool) {
 			det = fmt.Sprintf("index %s; length %s; relation index-len <= %s", z.describe(s, i, oi), z.describe(s, l, ol), boundStr(s.bound(i, l)+oi-ol))
 		}
 		z.obl(in, what, lower && upper, det)
+		z.obls[len(z.obls)-1].IsBound = true
+		z.obls[len(z.obls)-1].LowerOK = lower
 	}
 	switch x := in.(type) {
 	case *ssa.IndexAddr:
@@ -707,6 +788,9 @@ func (z *zoneEngine) transfer(s *zstate, in ssa.Instruction, record bool) {
 				det = fmt.Sprintf("low %s; high %s; length %s (0<=low:%v low<=high:%v high<=len:%v)", z.describe(s, lo, olo), z.describe(s, hi, ohi), z.describe(s, l, ol), ok1, ok2, ok3)
 			}
 			z.obl(in, "slice", ok1 && ok2 && ok3, det)
+			z.obls[len(z.obls)-1].IsBound = true
+			// s[lo:hi] with lo given: a negative hi is an ordering failure (hi < lo), not checked here
+			z.obls[len(z.obls)-1].LowerOK = ok1 && (x.Low != nil || x.High == nil || z.provesLeq(s, zZero, 0, hi, ohi))
 		}
 		// len(result) = hi - lo
 		rl := zterm{x, true}
@@ -754,6 +838,14 @@ func (z *zoneEngine) transfer(s *zstate, in ssa.Instruction, record bool) {
 					// len >= k
 					s.add(zZero, l, ol-k)
 				}
+				if k, ok := z.fieldLB[tn+"."+fld]; ok && isIntType(x.Type()) {
+					t := zterm{v: x}
+					s.forget(t)
+					s.add(zZero, t, -k)
+				}
+			}
+			if k, ok := z.loadLB[x]; ok {
+				s.add(zZero, zterm{v: x}, -k)
 			}
 		}
 	case *ssa.Store:
@@ -763,6 +855,48 @@ func (z *zoneEngine) transfer(s *zstate, in ssa.Instruction, record bool) {
 				s.touch(l)
 				okLen := z.provesLeq(s, zZero, k, l, ol)
 				z.obl(in, "field invariant len("+tn+"."+fld+") >= "+fmt.Sprint(k), okLen, "stored value "+z.describe(s, l, ol))
+			}
+			if k, ok := z.fieldLBCheck[tn+"."+fld]; ok && record && isIntType(x.Val.Type()) {
+				fresh := false
+				if fa, isFA := x.Addr.(*ssa.FieldAddr); isFA {
+					_, fresh = fa.X.(*ssa.Alloc)
+				}
+				if !fresh {
+					t, o := z.lin(s, x.Val)
+					okLB := z.provesLeq(s, zZero, k, t, o)
+					z.obl(in, "class invariant "+tn+"."+fld+" >= "+fmt.Sprint(k), okLB, "stored value "+z.describe(s, t, o))
+				}
+			}
+			if k, ok := z.fieldLB[tn+"."+fld]; ok && record && isIntType(x.Val.Type()) {
+				t, o := z.lin(s, x.Val)
+				okLB := z.provesLeq(s, zZero, k, t, o)
+				z.obl(in, "field invariant "+tn+"."+fld+" >= "+fmt.Sprint(k), okLB, "stored value "+z.describe(s, t, o))
+			}
+		}
+	case *ssa.BinOp:
+		// x + y with two non-constant operands: the domain has no sums, but
+		// lower bounds add up and the result dominates each operand shifted
+		// by the other one's lower bound
+		if x.Op == token.ADD && isIntType(x.Type()) {
+			_, kx := constInt(x.X)
+			_, ky := constInt(x.Y)
+			if !kx && !ky {
+				tx, ox := z.lin(s, x.X)
+				ty, oy := z.lin(s, x.Y)
+				rt := zterm{v: x}
+				s.forget(rt)
+				lbx, lby := s.bound(zZero, tx), s.bound(zZero, ty)
+				if lbx < zInf && lby < zInf {
+					// x >= -lbx+ox, y >= -lby+oy
+					s.add(zZero, rt, lbx+lby-ox-oy)
+				}
+				if lby < zInf {
+					// r >= x + (y's lower bound)
+					s.add(tx, rt, lby-oy-ox)
+				}
+				if lbx < zInf {
+					s.add(ty, rt, lbx-ox-oy)
+				}
 			}
 		}
 	case *ssa.Call:
@@ -886,6 +1020,9 @@ func (z *zoneEngine) call(s *zstate, c *ssa.Call, record bool) {
 		return
 	}
 	n := calleeName(c)
+	if c1, ok := z.getterEq[c]; ok {
+		s.eq[c] = c1
+	}
 	switch n {
 	case "strings.Index", "strings.IndexByte", "strings.IndexRune", "strings.LastIndex":
 		// -1 <= ret <= len(s) - 1 for a non-empty needle
@@ -912,6 +1049,11 @@ func (z *zoneEngine) call(s *zstate, c *ssa.Call, record bool) {
 		return
 	}
 	ct := z.contracts[n]
+	if ct == nil && n == "dynamic" {
+		// a call through a func value of a named func type with a contract
+		// (every function stored in such a value is checked against it)
+		ct = z.contracts["type:"+typeStr(c.Call.Value.Type())]
+	}
 	if ct == nil {
 		return
 	}
@@ -1200,7 +1342,7 @@ func (z *zoneEngine) analyse(fn *ssa.Function) {
 	var loads []*ssa.UnOp
 	eachInstr(fn, func(in ssa.Instruction) {
 		if u, ok := in.(*ssa.UnOp); ok && u.Op == token.MUL {
-			if _, _, ok := fieldOf(u.X); ok && isSeqType(u.Type()) {
+			if _, _, ok := fieldOf(u.X); ok && (isSeqType(u.Type()) || (z.useGetters && isIntType(u.Type()))) {
 				loads = append(loads, u)
 			}
 		}
@@ -1234,6 +1376,21 @@ func (z *zoneEngine) analyse(fn *ssa.Function) {
 	for k := range z.canon {
 		z.canon[k] = rep(k)
 	}
+	z.sameBinOps = map[binopKey][]*ssa.BinOp{}
+	eachInstr(fn, func(in ssa.Instruction) {
+		if bo, ok := in.(*ssa.BinOp); ok {
+			switch bo.Op {
+			case token.EQL, token.NEQ, token.LSS, token.LEQ, token.GTR, token.GEQ:
+				k := mkBinopKey(bo)
+				z.sameBinOps[k] = append(z.sameBinOps[k], bo)
+			}
+		}
+	})
+	z.getterEq, z.loadLB = nil, nil
+	if z.useGetters {
+		z.getterEq = z.getterEqualities(fn)
+		z.loadLB = z.stateLoadBounds(fn)
+	}
 	entry := newZState()
 	// parameter lengths are non-negative (implicit); contract requires
 	if ct := z.contracts[fnName(fn)]; ct != nil {
@@ -1246,6 +1403,11 @@ func (z *zoneEngine) analyse(fn *ssa.Function) {
 		}
 		for _, nr := range ct.NSReq {
 			entry.ns[[3]ssa.Value{fn.Params[nr[0]], fn.Params[nr[1]], fn.Params[nr[2]]}] = true
+		}
+	}
+	if z.entryNonneg != nil {
+		for _, prm := range z.entryNonneg(fn) {
+			entry.add(zZero, zterm{v: prm}, 0)
 		}
 	}
 	in := map[*ssa.BasicBlock]*zstate{fn.Blocks[0]: entry}
